@@ -104,7 +104,21 @@ func (p *Pair) deliver(toA bool) {
 func (p *Pair) Step(swap bool) bool {
 	ic, ac := p.I.VS.Snapshot().Connected, p.A.VS.Snapshot().Connected
 	if ic != ac {
-		// one side dropped the connection: the other sees the close, in-flight bytes are lost
+		// one side ended the connection. What it had written before closing still reaches the other side, which
+		// then sees the close; what was on its way to the side that closed is lost.
+		if !ic {
+			p.AToI = nil
+			if len(p.IToA) > 0 {
+				p.deliver(true)
+				return true
+			}
+		} else {
+			p.IToA = nil
+			if len(p.AToI) > 0 {
+				p.deliver(false)
+				return true
+			}
+		}
 		p.Cut()
 		return true
 	}
